@@ -745,7 +745,9 @@ def _elementwise(f, xa, ya, xarr, yarr, res_tag, pre_tag, cast_x=None):
     out = _obj(bx.shape)
     if out.ndim == 0:
         r = f(cx(bx[()]), cy(by[()]))
-        return r if res_tag == 'bool' else cast(r, res_tag)
+        if res_tag == 'bool':
+            return SB(z3.BoolVal(r)) if isinstance(r, bool) else r      # numpy bool scalars have .any()/.all()
+        return cast(r, res_tag)
     it_x = bx.reshape(-1) if bx.size else bx
     it_y = by.reshape(-1) if by.size else by
     dst = out.reshape(-1)
@@ -1294,8 +1296,12 @@ def _ufunc(f_real, f_complex=None, out_float=True):
             if x._tag == 'complex':
                 if f_complex is None:
                     raise EncodingGap('ufunc on complex input')
+                if x.ndim == 0:
+                    return f_complex(x._a[()])
                 return _map(f_complex, x, 'complex')
             tag = 'float' if out_float else x._tag
+            if x.ndim == 0:
+                return f_real(R.of(x._a[()]))
             return _map(lambda v: f_real(R.of(v)), x, tag)
         if isinstance(x, (C, complex)):
             if f_complex is None:
